@@ -18,7 +18,7 @@ import (
 
 type c19Case struct {
 	U        int      `json:"urls"`
-	Combos   []string `json:"header_combos"` // "a|b" = X-A: a, X-B: b ("-" absent)
+	Combos   []string `json:"header_combos"` // "a|b" = X-A: a, X-B: b ("-" absent, ";" separates field lines)
 	Policy   string   `json:"policy"`
 	DtS      float64  `json:"dt_s"`
 	PostEach int      `json:"post_every,omitempty"`
@@ -32,7 +32,8 @@ func genC19(r *rand.Rand) c19Case {
 	nh := 1 + r.IntN(4)
 	seen := map[string]bool{}
 	for len(c.Combos) < nh {
-		cb := pick(r, []string{"-", "1", "2", "3", "caf\xe9", "\xff\xfe"}) + "|" + pick(r, []string{"-", "1", "2"})
+		// "p;q" = two field lines, "p, q" = one line holding a list
+		cb := pick(r, []string{"-", "1", "2", "3", "caf\xe9", "\xff\xfe", "p;q", "p, q", "P;q;r", " sp  ace "}) + "|" + pick(r, []string{"-", "1", "2", "m;n"})
 		if !seen[cb] {
 			seen[cb] = true
 			c.Combos = append(c.Combos, cb)
@@ -174,10 +175,10 @@ func c19Run(r *run.Runner, c c19Case) {
 				h := map[string][]string{}
 				parts := strings.Split(cb, "|")
 				if parts[0] != "-" {
-					h["X-A"] = []string{parts[0]}
+					h["X-A"] = strings.Split(parts[0], ";")
 				}
 				if parts[1] != "-" {
-					h["X-B"] = []string{parts[1]}
+					h["X-B"] = strings.Split(parts[1], ";")
 				}
 				if c.DtS > 0 {
 					time.Sleep(time.Duration(c.DtS * float64(time.Second)))
